@@ -112,34 +112,34 @@ theorem cur_all : ∀ n : Nat, CurIH n := by
   intro n
   induction n with
   | zero => exact {
-    evalExpr := by intros; simp [evalExpr]
-    evalList := by intros; simp [evalList]
-    evalIndexOpt := by intros; simp [evalIndexOpt]
-    evalCond := by intros; simp [evalCond]
-    sliceBegin := by intros; simp [sliceBegin]
-    sliceEnd := by intros; simp [sliceEnd]
-    evalMapLit := by intros; simp [evalMapLit]
-    evalLetsx := by intros; simp [evalLetsx]
-    letExpr := by intros; simp [letExpr]
-    callValue := by intros; simp [callValue]
-    makeCallArgs := by intros; simp [makeCallArgs]
-    argsTail := by intros; simp [argsTail]
-    evalArgs := by intros; simp [evalArgs]
-    evalVarArgs := by intros; simp [evalVarArgs]
-    callFn := by intros; simp [callFn]
-    runDefers := by intros; simp [runDefers]
-    execStmt := by intros; simp [execStmt]
-    execStmts := by intros; simp [execStmts]
-    assignAll := by intros; simp [assignAll]
+    evalExpr := by intros; simp [evalExpr, outOfFuel_cur]
+    evalList := by intros; simp [evalList, outOfFuel_cur]
+    evalIndexOpt := by intros; simp [evalIndexOpt, outOfFuel_cur]
+    evalCond := by intros; simp [evalCond, outOfFuel_cur]
+    sliceBegin := by intros; simp [sliceBegin, outOfFuel_cur]
+    sliceEnd := by intros; simp [sliceEnd, outOfFuel_cur]
+    evalMapLit := by intros; simp [evalMapLit, outOfFuel_cur]
+    evalLetsx := by intros; simp [evalLetsx, outOfFuel_cur]
+    letExpr := by intros; simp [letExpr, outOfFuel_cur]
+    callValue := by intros; simp [callValue, outOfFuel_cur]
+    makeCallArgs := by intros; simp [makeCallArgs, outOfFuel_cur]
+    argsTail := by intros; simp [argsTail, outOfFuel_cur]
+    evalArgs := by intros; simp [evalArgs, outOfFuel_cur]
+    evalVarArgs := by intros; simp [evalVarArgs, outOfFuel_cur]
+    callFn := by intros; simp [callFn, outOfFuel_cur]
+    runDefers := by intros; simp [runDefers, outOfFuel_cur]
+    execStmt := by intros; simp [execStmt, outOfFuel_cur]
+    execStmts := by intros; simp [execStmts, outOfFuel_cur]
+    assignAll := by intros; simp [assignAll, outOfFuel_cur]
     execElifs := by intros; simp [execElifs]
-    loopIter := by intros; simp [loopIter]
-    cforIter := by intros; simp [cforIter]
-    forSlice := by intros; simp [forSlice]
-    forMap := by intros; simp [forMap]
-    execReturn := by intros; simp [execReturn]
-    execCases := by intros; simp [execCases]
-    matchCase := by intros; simp [matchCase]
-    registerDefer := by intros; simp [registerDefer] }
+    loopIter := by intros; simp [loopIter, outOfFuel_cur]
+    cforIter := by intros; simp [cforIter, outOfFuel_cur]
+    forSlice := by intros; simp [forSlice, outOfFuel_cur]
+    forMap := by intros; simp [forMap, outOfFuel_cur]
+    execReturn := by intros; simp [execReturn, outOfFuel_cur]
+    execCases := by intros; simp [execCases, outOfFuel_cur]
+    matchCase := by intros; simp [matchCase, outOfFuel_cur]
+    registerDefer := by intros; simp [registerDefer, outOfFuel_cur] }
   | succ n ih => exact {
     evalExpr := cur_evalExpr n ih
     evalList := cur_evalList n ih
